@@ -8,6 +8,8 @@ event vocabulary of spec/ConnRule.tla.  Verdicts come from TLC running that moni
 """
 import itertools
 
+import os
+import sys
 from lib import common, fakesock, refserver, tlc, vclock
 
 KINDS = ["client", "pooled", "hash", "hashpooled"]
@@ -90,6 +92,12 @@ ALL_OPS = [  # (op, noreply variants)
 ]
 
 
+# a call made with a key the protocol cannot carry: a blank inside, a line break inside (no blank: a second command
+# line if it were sent), control characters at the ends
+ILLEGAL_KEY_OPS = {"get_illegal": "illegal key", "get_illegal_crlf": "nokey\r\nversion", "get_illegal_lf": "nokey\nversion",
+                   "get_illegal_tab": "k\tdelete k1"}
+
+
 def has_op(kind, op):
     if op == "getitem_miss":
         return kind in ("client", "pooled")
@@ -154,12 +162,12 @@ class Stack:
         plan = dict(plan or {})
         # a call the harness makes fail on purpose (an illegal key) counts as a failed call: what the stack does with the
         # connection it held is judged like after any other failure
-        rfault = any(k[0] == "reply" for k in plan) or op == "get_illegal"
+        rfault = any(k[0] == "reply" for k in plan) or op in ILLEGAL_KEY_OPS
         kind = "quit" if op in ("quit", "shutdown") else "close" if op == "close" else "data"
         ro = op in READ_OPS
         self.events.append({"e": "call", "c": c, "op": op, "kind": kind, "rfault": rfault, "ro": ro})
         self.net.begin_call(c, plan, seg)
-        if op in ("close", "get_illegal", "getitem_miss"):
+        if op in ("close", "getitem_miss") or op in ILLEGAL_KEY_OPS:
             args, kw = (), {}
         elif op == "flush_all_delay":
             args, kw = op_call("flush_all", nr, self.cfg.kind)
@@ -168,8 +176,8 @@ class Stack:
         else:
             args, kw = op_call(op, nr, self.cfg.kind)
         try:
-            if op == "get_illegal":
-                val = self.client.get("illegal key")             # rejected before any exchange
+            if op in ILLEGAL_KEY_OPS:
+                val = self.client.get(ILLEGAL_KEY_OPS[op])       # rejected before any exchange
             elif op == "getitem_miss":
                 val = self.client["absent-key"]                  # KeyError for a plain miss
             elif op == "flush_all_delay":
@@ -325,6 +333,8 @@ def validate(rep, traces, relevant, prop, sigfn=None):
             ev = t["ev"][pos - 1] if pos <= len(t["ev"]) else {"e": "<end>"}
             if not rel:
                 other += 1
+                if os.environ.get("VERIF_DEBUG_OTHER"):
+                    print("OTHER", names, t["h"]["kind"], t["h"].get("ignore_exc"), [x[1] for x in t["steps"] if x[0] == "call"], file=sys.stderr)
                 continue
             # which call was running
             callev = None
